@@ -15,7 +15,7 @@ RULE = ("stream 7: every sequence of <=K pairwise non-overlapping kernels (touch
         "is missing (dangling correlation), or the kernel carries no correlation; launch API name in {cudaLaunchKernel, "
         "cudaLaunchCooperativeKernel, cudaMemcpy, cudaGraphLaunch}; a sync record on the stream must "
         "be ignored; stream 9 empty or a fixed 2-kernel pattern; event 0 (the leading host op) early or late; "
-        "x thresholds {-1,0,1,2,30} x stream subsets x ranks {[0],[0,1]} x file order {generated, reversed} x N1 "
+        "x thresholds {-1,0,1,2,30} x stream subsets x ranks {[0],[0,1],[1,0]} (the second rank owns a stream the first lacks) x file order {generated, reversed} x N1 "
         "tie orders. non-trivial = at least two distinct categories have positive idle time")
 ASSUMPTIONS = [
     "well-formed trace, kernels of one stream do not overlap (consecutive kernels satisfy end <= next start)",
@@ -130,14 +130,21 @@ def check(world) -> Dict[str, Any]:
     outcome = []
     for rev in (False, True):
         evs = build(world, rev)
-        ranks = {0: evs} if not world["s9"] else {0: evs, 1: build(dict(world, s9=False), rev)}
+        # with stream 9: rank 0 = the world without stream 9, rank 1 = the world with it (a later rank owning a stream the
+        # first rank lacks), and the other way round when the file order is reversed
+        if not world["s9"]:
+            ranks = {0: evs}
+        elif rev:
+            ranks = {0: evs, 1: build(dict(world, s9=False), rev)}
+        else:
+            ranks = {0: build(dict(world, s9=False), rev), 1: evs}
         ta, _ = htaenv.load_world(ranks)
         tag0 = "file-reversed" if rev else "file-order"
         for delay in (DELAYS if not rev else [1]):
             exp = {r: expected(e, delay) for r, e in ranks.items()}
-            subsets = [None] + ([[7], [9], [9, 7]] if (world["s9"] and delay == 1 and not rev) else [])
+            subsets = [None] + ([[7], [9], [9, 7]] if (world["s9"] and delay == 1 and rev) else [])
             for streams in subsets:
-                for rk in ([None, [0, 1]] if len(ranks) > 1 and streams is None else [None]):
+                for rk in ([None, [0, 1], [1, 0]] if len(ranks) > 1 and streams is None else [None]):
                     def run():
                         df, _ = ta.get_idle_time_breakdown(ranks=rk, streams=streams, visualize=False,
                                                            consecutive_kernel_delay=delay)
